@@ -407,9 +407,9 @@ def leak_key(tab, line):
 
 def run(ctx):
     ctx.assumptions += [
-        "the log-site walker (harness/logsites, go/ast only, no type information) finds every logging call of the anchored files and "
-        "classifies argument origins syntactically; the list of reviewed address-free error producers in it is a human review",
-        "log sites outside the five anchored files (e.g. transports' own logging) are not in the table",
+        "the log-site walker (harness/logsites, go/ast + go/types over the dependency closure of the station packages) finds every logging call and "
+        "classifies argument origins by type and data flow within the function; the list of reviewed address-free error producers in it is a human review",
+        "log sites of every conjure package the station links (14 packages) are in the table; third-party libraries' own logging is not",
         "error texts are modelled as token lists in which an embedded address is one token; fmt verbs, json escaping and the "
         "textual forms searched for (dotted, hex, expanded, v4-mapped, decimal) are the driver's",
         "the in-package Go driver, the case generator and the JSON->Gallina emitter are trusted",
